@@ -18,6 +18,10 @@ PID = "C15"
 
 def sig_of(msg):
     m = norm_msg(msg)
+    if m.startswith("abstract:") or m.startswith("effect table:"):
+        # the clause without addresses, positions and depth numbers
+        words = [w for w in m.replace("(", " ").replace(")", " ").split(" ") if w and not any(c.isdigit() for c in w)]
+        return "_".join(words[:7])
     # keep the clause, drop addresses and positions
     for key in ("underflow:", "stack depth differs between two visits", "stack depths at procedure return", "executed branch",
                 "stacks are not back", "label", "unresolved", "outside the list", "does not end with", "statement address", "PushRet", "targets", "empty procedure"):
@@ -38,6 +42,8 @@ def judge(rep):
     if g:
         for s in g.get("structure", []):
             out.append(("structure:" + sig_of(s), s))
+        for s in (g.get("abs") or {}).get("violations", []):
+            out.append(("static:" + sig_of(s), s))
     m = rep.get("mon", {})
     for s in m.get("c15", []):
         out.append(("dynamic:" + sig_of(s), s))
@@ -95,6 +101,13 @@ def shard(ctx):
         r.count("labels_checked", rep["gen"]["n_labels"])
         r.count("branch_targets_checked", rep["gen"]["n_branches"])
         r.count("duplicate_statement_addresses", rep["gen"]["dup_stmt_addr"])
+        ab = rep["gen"].get("abs") or {}
+        r.count("abstract_walk_roots", ab.get("roots", 0))
+        r.count("abstract_walk_addresses_reached", ab.get("reached", 0))
+        r.count("abstract_walk_joins_compared", ab.get("joins", 0))
+        r.count("abstract_walk_carried_depths_checked", ab.get("carried", 0))
+        r.count("abstract_walk_unreached_addresses", rep["gen"]["n"] - min(rep["gen"]["n"], ab.get("reached", 0)))
+        r.count("effect_table_calibrations", m.get("calib", 0))
         for k, v in m.get("hist", {}).items():
             r.count(k, v, group="opcode_histogram")
         if m.get("back_jumps", 0) >= 1 and m.get("calls", 0) >= 1:
